@@ -28,6 +28,9 @@ func c02Tag(o *GOp) string {
 		t += ":" + o.Proto
 		if o.Gzip {
 			t += "+gzip"
+			if o.GzN > 1 {
+				t += "-multimember"
+			}
 		}
 		switch {
 		case o.Meta.Md5Hash == "":
@@ -225,7 +228,7 @@ func runC02(c *fw.Ctx) {
 			for _, proto := range []string{"media", "multipart", "resumable"} {
 				for pi, data := range payloads {
 					for md := 0; md < 4; md++ {
-						for gzi := 0; gzi < 2; gzi++ {
+						for gzi := 0; gzi < 3; gzi++ { // 0 plain, 1 gzip body, 2 gzip body of several members
 							item++
 							if !c.Mine(item) {
 								continue
@@ -250,7 +253,13 @@ func runC02(c *fw.Ctx) {
 								continue // a media upload has no place for a declared MD5
 							}
 							prev := GOp{Kind: "Upload", Proto: "media", Bucket: "b1", Name: name, Data: []byte("previous"), Meta: gcs.ObjMeta{ContentType: "text/old"}}
-							up := GOp{Kind: "Upload", Proto: proto, Bucket: "b1", Name: name, Data: data, Meta: meta, Gzip: gzi == 1}
+							up := GOp{Kind: "Upload", Proto: proto, Bucket: "b1", Name: name, Data: data, Meta: meta, Gzip: gzi >= 1}
+							if gzi == 2 {
+								if len(data) < 3 {
+									continue
+								}
+								up.GzN = 3
+							}
 							// onto an absent object, and onto an existing one (a rejected upload must leave it intact)
 							for _, pre := range [][]GOp{nil, {prev}} {
 								ops := append(append(append([]GOp(nil), setup...), pre...), up)
